@@ -4,15 +4,15 @@ go 1.25.0
 
 require (
 	github.com/klauspost/reedsolomon v1.12.0
+	github.com/tjfoc/gmsm v1.4.1
 	github.com/xtaci/kcp-go/v5 v5.0.0
+	golang.org/x/crypto v0.45.0
 	pgregory.net/rapid v1.3.0
 )
 
 require (
 	github.com/klauspost/cpuid/v2 v2.2.6 // indirect
 	github.com/pkg/errors v0.9.1 // indirect
-	github.com/tjfoc/gmsm v1.4.1 // indirect
-	golang.org/x/crypto v0.45.0 // indirect
 	golang.org/x/net v0.47.0 // indirect
 	golang.org/x/sys v0.38.0 // indirect
 	golang.org/x/time v0.14.0 // indirect
